@@ -124,9 +124,11 @@ class RootDataset(KDDataset):
     (several wrappers mutate in place).  y/source/target items mirror x for the generic transform wrappers.
     `clobber` maps an access number (per process copy) to (which, seed): foreign code reseeding a global RNG (fault F8)."""
 
-    def __init__(self, kind, size, n_classes=3, clobber=None, ctx_tags=False, ds_id=0, fail_at=(), **kw):
+    def __init__(self, kind, size, n_classes=3, clobber=None, ctx_tags=False, ds_id=0, fail_at=(), lazy_fail_at=(), **kw):
         super().__init__(**kw)
         self.fail_at = set(fail_at)
+        self.lazy_fail_at = set(lazy_fail_at)  # accesses at which a 'pil' root hands out a LAZILY decoded image whose first
+        #                                        pixel-data read fails once (the error surfaces inside whoever touches the pixels)
         self.ctx_tags = ctx_tags
         self.ds_id = ds_id
         self.kind = kind
@@ -171,6 +173,8 @@ class RootDataset(KDDataset):
         if self.kind == "pil":
             from PIL import Image
             a = ((np.arange(32 * 32 * 3).reshape(32, 32, 3) * (k + 2)) % 251).astype(np.uint8)
+            if self.accesses in self.lazy_fail_at:
+                return lazy_flaky_image(a)
             return Image.fromarray(a)
         return ((torch.arange(3 * 16 * 16).float().view(3, 16, 16) * (k + 2)) % 23) / 23
 
@@ -200,6 +204,42 @@ class RootDataset(KDDataset):
 
     def getall_class(self):
         return [self.getitem_class(i) for i in range(self.size)]
+
+
+FLAKY_FILES = []  # every armed file object handed out (one interpreter hosts all simulated processes): the harness disarms them
+#                   before it looks at pixels itself
+
+
+class _FlakyFile(__import__("io").BytesIO):
+    armed = False
+
+    def read(self, n=-1):
+        if self.armed:
+            self.armed = False
+            raise InjectedReadError(5, "injected: read error while the image is decoded lazily")
+        return super().read(n)
+
+
+def lazy_flaky_image(array):
+    """a PIL image opened from a (lossless) BMP byte stream: the header is parsed, the pixels are read on first use - and
+    that first read fails once"""
+    import io
+    from PIL import Image
+    buf = io.BytesIO()
+    Image.fromarray(array).save(buf, format="BMP")
+    f = _FlakyFile(buf.getvalue())
+    img = Image.open(f)
+    f.armed = True
+    FLAKY_FILES.append(f)
+    return img
+
+
+def disarm_flaky_files():
+    n = sum(1 for f in FLAKY_FILES if f.armed)
+    for f in FLAKY_FILES:
+        f.armed = False
+    del FLAKY_FILES[:]
+    return n
 
 
 class InjectedReadError(OSError):
